@@ -206,6 +206,19 @@ VARIANTS = {
 }
 
 
+def patch_variant(path):
+    def ed(root):
+        rc, out = sh("git apply %s" % path, cwd=root)
+        assert rc == 0, "patch does not apply: %s" % out[:200]
+    return ed
+
+
+import glob
+for _p in sorted(glob.glob(os.path.join(os.path.dirname(os.path.abspath(__file__)),
+                                        "benign_patches", "*.diff"))):
+    VARIANTS["patch:" + os.path.basename(_p)[:-5]] = patch_variant(_p)
+
+
 def sh(cmd, cwd=None, env=None, timeout=900):
     p = subprocess.run(cmd, shell=True, cwd=cwd, env=env, capture_output=True, text=True,
                        timeout=timeout)
